@@ -235,9 +235,9 @@ func c44Mutations(n int, mode string, quick bool, g *vkit.Rand) []c44Mut {
 	for k := 0; k < 8; k++ {
 		ms = append(ms, c44Mut{Op: "random", Arg: k})
 	}
-	nf2 := 64
+	nf2 := 256
 	if !quick {
-		nf2 = 1500
+		nf2 = 3000
 	}
 	for k := 0; k < nf2; k++ {
 		ms = append(ms, c44Mut{Op: "flip2", Arg: g.Intn(n * 8 * n * 8)})
@@ -327,7 +327,7 @@ func c44Planted(r *vkit.Run, idx int, src *c44Source, ses *c44Session, foreign [
 	g := r.Rng("planted", idx)
 	n := len(ses.Ticket)
 	ms := []c44Mut{{Op: "valid"}, {Op: "foreign-key"}, {Op: "truncate", Arg: n - 1}, {Op: "extend-zero", Arg: 1}, {Op: "zero"}, {Op: "truncate", Arg: 0}}
-	for k := 0; k < r.N(10, 60); k++ {
+	for k := 0; k < r.N(20, 60); k++ {
 		ms = append(ms, c44Mut{Op: "flip", Arg: g.Intn(n * 8)})
 	}
 	vkit.Parallel(len(ms), workers, func(i int) {
@@ -866,7 +866,7 @@ func c44(r *vkit.Run) {
 		}
 	}
 	// pairs of changes
-	np := r.N(300, 9000)
+	np := r.N(600, 15000)
 	for i := 0; i < np; i++ {
 		g := r.Rng("pair", i)
 		b := bases[g.Intn(len(bases))]
